@@ -1729,8 +1729,6 @@ BTree_rangeSearch(BTree *self, PyObject *args, PyObject *kw, char type)
             PER_UNUSE(lowbucket);
             if (bucketlen > 1)
                 lowoffset = 1;
-            else if (self->len < 2)
-                goto empty;
             else
             {    /* move to first item in next bucket */
                 Bucket *next;
@@ -1738,7 +1736,12 @@ BTree_rangeSearch(BTree *self, PyObject *args, PyObject *kw, char type)
                     goto err;
                 next = lowbucket->next;
                 PER_UNUSE(lowbucket);
-                assert(next != NULL);
+                /* Note that self->len is the number of children of the
+                 * root, not the number of buckets:  a root with a single
+                 * (interior) child can still have many buckets.
+                 */
+                if (next == NULL)
+                    goto empty;
                 lowbucket = next;
                 /* and lowoffset is still 0 */
                 assert(lowoffset == 0);
@@ -1773,12 +1776,11 @@ BTree_rangeSearch(BTree *self, PyObject *args, PyObject *kw, char type)
         {
             if (highoffset > 0)
                 --highoffset;
-            else if (self->len < 2)
+            else if (highbucket == self->firstbucket)
                 goto empty_and_decref_buckets;
             else /* move to last item of preceding bucket */
             {
                 int status;
-                assert(highbucket != self->firstbucket);
                 Py_DECREF(highbucket);
                 status = PreviousBucket(&highbucket, self->firstbucket);
                 if (status < 0)
